@@ -89,6 +89,10 @@ pub fn test_pair(c: &PairCase, ctx: &mut CaseCtx) -> Result<(), String> {
     ctx.class_if(condensable, "p_condensable");
     ctx.class_if(c.d.contains('"') || c.d.contains('“'), "d_has_quotes");
     ctx.class_if(!c.p.is_ascii(), "p_multibyte");
+    {
+        let mixed = |t: &str| t.contains(" \t") || t.contains("\t ");
+        ctx.class_if(mixed(&c.p) && mixed(&c.d), "runs_of_spaces_and_tabs_in_both_paragraphs");
+    }
     if (!lp.is_empty() && !ld.is_empty()) || condensable {
         ctx.nontrivial(c);
     }
@@ -203,15 +207,32 @@ pub fn pair_strategy() -> BoxedStrategy<PairCase> {
         g::sentence(),
     )
         .prop_map(|(p, open, rest)| PairCase { p, d: format!("{open} {rest}") });
-    prop_oneof![5 => independent, 3 => shared, 1 => misspelt, 2 => abbrev, 1 => ordinals, 2 => openers].boxed()
+    // runs of blanks that mix spaces and tabs (several whitespace tokens in a row) in both paragraphs
+    let blank_run = || g::sel_str(&[" ", " ", "  ", " \t ", "\t \t", " \t", "\t ", "\t", " \t \t ", "   ", "\t\t", " \t  \t "]);
+    let spaced = move || {
+        proptest::collection::vec((g::plain_word(), blank_run()), 2..8).prop_map(|ws| {
+            let mut s = String::new();
+            for (i, (w, sep)) in ws.iter().enumerate() {
+                if i > 0 {
+                    s.push_str(sep);
+                }
+                s.push_str(w);
+            }
+            s
+        })
+    };
+    let blanks = (spaced(), spaced(), g::sel_str(&["\n\n", "\n\n\n", "\n\n\n\n"]), g::sel_str(&["", ".", " \t"]))
+        .prop_map(|(p, d, br, tail)| PairCase { p: format!("{p}.{br}"), d: format!("{d}{tail}") });
+    prop_oneof![5 => independent, 3 => shared, 1 => misspelt, 2 => abbrev, 1 => ordinals, 2 => openers, 2 => blanks].boxed()
 }
 
 pub fn run(run: &mut Run) {
-    run.rule = "pairs (P, D): P = 1-3 G-TEXT sentences with double quotes removed, internal blank lines collapsed, ending in a sentence terminator and a paragraph break (\\n\\n or \\n\\n\\n); D = any G-TEXT text; plain English, all rules on; oracle: sorted lints(P+D) == sorted(lints(P) ++ shift(lints(D), |P|)) comparing all fields. Non-trivial = P and D both produce lints, or P contains a condensable construct; distinct by (P, D).".into();
+    run.rule = "pairs (P, D): P = 1-3 G-TEXT sentences with double quotes removed, internal blank lines collapsed, ending in a sentence terminator and a paragraph break (\\n\\n or \\n\\n\\n); D = any G-TEXT text (plus families: shared words, abbreviations at the end of P, ordinals, special openers of D, runs mixing spaces and tabs in both); plain English, all rules on; oracle: sorted lints(P+D) == sorted(lints(P) ++ shift(lints(D), |P|)) comparing all fields. Non-trivial = P and D both produce lints, or P contains a condensable construct; distinct by (P, D).".into();
     let n = run.n(6_000, 300_000);
     run.prop("paragraph_pairs", n, pair_strategy, test_pair);
     run.require_class("paragraph_pairs", "both_have_lints", (n / 5) as u64);
     run.require_class("paragraph_pairs", "p_condensable", (n / 20) as u64);
+    run.require_class("paragraph_pairs", "runs_of_spaces_and_tabs_in_both_paragraphs", (n / 40) as u64);
 }
 
 pub fn replay(_check: &str, case: Value, _run: &mut Run) -> Result<(), String> {
